@@ -62,6 +62,7 @@
 #define VH_EXPECT_NONSINGULAR
 int vh_log_i; double vh_log_d;
 #define VH_OWN_AWAIT
+#define VH_OWN_LUSUP
 #include "env_stubs.h"
 #include "mem_stubs.h"
 int_t vh_permc_final[N] = VH_PERMC;
